@@ -122,6 +122,13 @@ func (r *runner) ident(tk touchKey) (fails *identFail, size int64) {
 				return bad("hexists-unreachable", "HGETALL lists %q but HEXISTS=0", all[i]), n
 			}
 		}
+		if emptyMemberClass(keys) != "" {
+			// the cursor "" is both start and end marker: the element named ""
+			// cannot be represented by the cursor protocol (C13 quantifies over
+			// non-empty names); the total is not demanded for such collections
+			r.st.Skipped["scan-total not evaluated: collection holds the empty-name element"]++
+			return nil, n
+		}
 		ev("hscan-total", ne)
 		tot, msg := r.scanAll("hscan", t, k, 2)
 		if msg != "" {
@@ -160,6 +167,10 @@ func (r *runner) ident(tk touchKey) (fails *identFail, size int64) {
 			if x, _ := asInt(r.rd("sismember", t, k, mb)); x != 1 {
 				return bad("sismember-unreachable", "SMEMBERS lists %q but SISMEMBER=0", mb), n
 			}
+		}
+		if emptyMemberClass(ms) != "" {
+			r.st.Skipped["scan-total not evaluated: collection holds the empty-name element"]++
+			return nil, n
 		}
 		ev("sscan-total", ne)
 		tot, msg := r.scanAll("sscan", t, k, 1)
@@ -250,6 +261,10 @@ func (r *runner) ident(tk touchKey) (fails *identFail, size int64) {
 			if g.Kind != "bulk" || !floatEq(string(g.Bulk), ws[i+1]) {
 				return bad("zscore-vs-zrange", "ZRANGE WITHSCORES has %q:%s but ZSCORE answers %s", ws[i], ws[i+1], g.Canon()), n
 			}
+		}
+		if emptyMemberClass(ms) != "" {
+			r.st.Skipped["scan-total not evaluated: collection holds the empty-name element"]++
+			return nil, n
 		}
 		ev("zscan-total", ne)
 		tot, msg := r.scanAll("zscan", t, k, 2)
